@@ -360,6 +360,27 @@ fn oracle_all() {
             let got = snap(&[(0, user.to_owned()), (1, bs.to_string()), (2, bd.to_string()), (3, "package z; enum Unrelated { A }".to_owned())]);
             if got != base { findings.push(format!("WITNESS property=C13 the importer's result changed although only the bodies of the imported items were rewritten (same package, name, kind): S = {:?}, D = {:?}", bs, bd)); }
         } }
+        // unrelated files: files whose keys the user does not import may come and go, in any number, without changing its result;
+        // the user also imports a name nobody registers (`q.Gone`) and uses a forward declaration
+        let user2 = "package p; import q.S; import q.Gone; import q.D; parcelable Fwd; interface U { void f(in S s, in Gone g, D d, in Fwd w, in List<Gone> l); }";
+        let base2 = snap(&[(0, user2.to_owned()), (1, bodies_s[0].to_owned()), (2, bodies_d[0].to_owned())]);
+        let unrelated = ["package z; enum Unrelated { A }", "package p; interface Other { void g(); }", "package q; parcelable Different { int x; }", "package y; interface S { }", "package q.r; parcelable D { }", "package a; enum Gone { G }", "not even a file"];
+        for k in 0..=unrelated.len() {
+            n += 1;
+            let mut fs = vec![(0u32, user2.to_owned()), (1, bodies_s[0].to_owned()), (2, bodies_d[0].to_owned())];
+            for (j, u) in unrelated.iter().take(k).enumerate() { fs.push((10 + j as u32, u.to_string())); }
+            let got = snap(&fs);
+            if got != base2 { findings.push(format!("WITNESS property=C13 the importer's result changed when {} file(s) it does not import were added: {:?}", k, &unrelated[..k])); }
+        }
+        let user3 = "package p; import q.Gone; interface U { void f(in Gone g, in List<Gone> l, in Gone[] a); }";
+        let base3 = snap(&[(0, user3.to_owned())]);
+        for k in 1..=unrelated.len() {
+            n += 1;
+            let mut fs = vec![(0u32, user3.to_owned())];
+            for (j, u) in unrelated.iter().take(k).enumerate() { fs.push((10 + j as u32, u.to_string())); }
+            let got = snap(&fs);
+            if got != base3 { findings.push(format!("WITNESS property=C13 the result of a file importing only an unregistered name changed when {} unrelated file(s) were added: {:?}", k, &unrelated[..k])); }
+        }
         // negative control of the statement: changing the kind must change the result
         let changed = snap(&[(0, user.to_owned()), (1, "package q; parcelable S { int x; }".to_owned()), (2, bodies_d[0].to_owned())]);
         if changed == base { findings.push("WITNESS property=C13 changing the kind of an imported item did not change the importer's result".to_owned()); }
